@@ -491,6 +491,9 @@ struct Run {
       // command is llbuild's business: one extra run that the statement neither demands nor forbids - not judged
       Tri run = or3(own, upChanged);
       if (s->depfile && run == N && upValue != N) run = M;
+      // ... the same for any command whose task is made to run that way while an output is older than an input - which
+      // happens after restat left that output alone in an earlier run (ninja would have recorded the newer time)
+      if (!s->depfile && run == N && upValue != N && status == Rec::Ok && olderThanInputs()) run = M;
       if (s->generator && status != Rec::Ok && own == N && upChanged == M) run = M;
       pOwn[s->name] = own;
       Tri fail = N, changed = N, value = N;
